@@ -2,10 +2,11 @@
 //
 // ref.go is the reference evaluator: written from RFC 4791 §9.7.1–9.7.5 and
 // the §9.9 VEVENT table, three-valued (True / False / Either), on harness-side
-// mirror types only; it imports nothing from go-webdav, go-ical or rrule-go.
+// mirror types only; it imports nothing from go-webdav, go-ical or rrule-go (vev only for the embedded zone database).
 package c06
 
 import (
+	"github.com/emersion/go-webdav/verifharness/vev"
 	"fmt"
 	"regexp"
 	"strconv"
@@ -177,6 +178,15 @@ func parseInstant(p Prop) (t int64, isDate bool, err error) {
 	case 16:
 		tt, err := time.Parse("20060102T150405Z", p.Value)
 		return tt.Unix(), false, err
+	case 15:
+		// local time with a time zone reference (RFC 5545 form #3): the wall-clock reading in that zone; the zone
+		// database is the one embedded in the test binary, the same the library resolves TZID with
+		for _, kv := range p.Params {
+			if kv[0] == "TZID" {
+				tt, err := time.ParseInLocation("20060102T150405", p.Value, vev.Zone(kv[1]))
+				return tt.Unix(), false, err
+			}
+		}
 	}
 	return 0, false, fmt.Errorf("reference handles UTC date-times and dates only, got %q", p.Value)
 }
